@@ -25,6 +25,7 @@ import (
 	"os/exec"
 	"path/filepath"
 	"regexp"
+	"runtime/debug"
 	"sort"
 	"strings"
 	"unicode/utf8"
@@ -1003,6 +1004,11 @@ func unhexEscapes(s string) string {
 
 // parseTrace returns the file/process events between the B<n> and E<n> markers of each request, and which requests are complete
 func parseTrace(logPath, root, work string) (map[int][]sysEvent, map[int]bool, error) {
+	return parseTraceMode(logPath, root, work, true)
+}
+
+// marked=false: no markers are expected, every event of the traced process tree is attributed to request 1
+func parseTraceMode(logPath, root, work string, marked bool) (map[int][]sysEvent, map[int]bool, error) {
 	data, err := os.ReadFile(logPath)
 	if err != nil {
 		return nil, nil, err
@@ -1010,6 +1016,10 @@ func parseTrace(logPath, root, work string) (map[int][]sysEvent, map[int]bool, e
 	events, done := map[int][]sysEvent{}, map[int]bool{}
 	pending := map[string]string{}
 	cur := 0
+	if !marked {
+		cur = 1
+		done[1] = true
+	}
 	for _, ln := range strings.Split(string(data), "\n") {
 		m := traceLine.FindStringSubmatch(ln)
 		if m == nil {
@@ -1151,6 +1161,310 @@ func traceStage(c *Ctx, t *tree, cfg, baseStr string, kOf map[string]string, nex
 		c.Case("FSL"+strings.TrimPrefix(tc.full, "FS"), strings.Join(obs, "+"))
 	}
 	os.Remove(logPath)
+}
+
+// ---------------------------------------------------------------- SCR: the interpreter binary on a script file elsewhere
+// The program is a script file given on the command line of the real binary (main.go: processOneFile sets
+// State.CurrentFile), located in the parent, a sibling, a subdirectory or the working directory itself, started
+// plainly or in #! mode (-s), by relative or absolute path, with -restrict-io (and -empty-only / -no-load-save).
+// Libraries with the requested (accepted) names sit next to the script as decoys.  Every file-system access of the
+// process other than opening the script itself must obey the working-directory rules.
+
+func repoDir() string {
+	if bi, ok := debug.ReadBuildInfo(); ok {
+		for _, d := range bi.Deps {
+			if d.Path == "grol.io/grol" && d.Replace != nil && d.Replace.Path != "" {
+				return d.Replace.Path
+			}
+		}
+	}
+	if v := os.Getenv("VERIF_REPO"); v != "" {
+		return v
+	}
+	return "/repo"
+}
+
+// the production binary (no verif tag) of the tree the harness itself was built against
+func buildGrol(c *Ctx) (string, error) {
+	outDir, err := filepath.Abs(c.Out)
+	if err != nil {
+		return "", err
+	}
+	bin := filepath.Join(outDir, "grol-c17")
+	cmd := exec.Command("go", "build", "-trimpath", "-o", bin, ".")
+	cmd.Dir = repoDir()
+	cmd.Env = append(os.Environ(), "GOFLAGS=-mod=mod", "GOPROXY=off", "CGO_ENABLED=0")
+	if out, err := cmd.CombinedOutput(); err != nil {
+		return "", fmt.Errorf("go build in %s: %v: %s", cmd.Dir, err, out)
+	}
+	return bin, nil
+}
+
+func (t *tree) addTemp(rel, content string) error {
+	if err := os.WriteFile(filepath.Join(t.root, rel), []byte(content), 0o644); err != nil {
+		return err
+	}
+	t.base[rel] = content
+	return nil
+}
+
+func (t *tree) removeTemp(rel string) {
+	os.Remove(filepath.Join(t.root, rel))
+	delete(t.base, rel)
+}
+
+type scrProg struct {
+	id, src, req string // req: the request as the model sees it (FSL case), "" = not compared with the model
+}
+
+var decoyValue = regexp.MustCompile(`\b30[1-9]\b`)
+
+func scriptStage(c *Ctx, t *tree, nextK func() int, only string) {
+	bin, err := buildGrol(c)
+	if err != nil {
+		c.Fail("harness-grol-binary-build", "SCR", err.Error())
+		return
+	}
+	defer os.Remove(bin)
+	strace, _ := exec.LookPath("strace")
+	// decoy libraries next to the scripts (values 301..), none of these names exists in the working directory
+	decoys := map[string]string{"lib.gr": "v=301\n", "sibling/lib.gr": "v=302\n", "work/sub/lib.gr": "v=303\n"}
+	for rel, content := range decoys {
+		if err := t.addTemp(rel, content); err != nil {
+			c.Fail("harness-scratch-tree", "SCR", err.Error())
+			return
+		}
+	}
+	defer func() {
+		for rel := range decoys {
+			t.removeTemp(rel)
+		}
+	}()
+	type loc struct{ key, rel string } // rel: script path relative to the scratch root
+	locs := []loc{{"parent", "scr_main.gr"}, {"sibling", "sibling/scr_main.gr"}, {"subdir", "work/sub/scr_main.gr"}, {"cwd", "work/scr_main.gr"}}
+	progs := func() []scrProg {
+		k1, k2 := nextK(), nextK()
+		return []scrProg{
+			{"load-lib", `load("lib")`, "L:" + hxs("lib")},
+			{"load-lib.gr", `load("lib.gr")`, "L:" + hxs("lib.gr")},
+			{"load-g", `load("g")`, "L:" + hxs("g")},
+			{"save-out", fmt.Sprintf("v=%d\nsave(\"out\")", k1), fmt.Sprintf("S:%s:%s:1", hxs("out"), hxs(fmt.Sprint(k1)))},
+			{"save-lib", fmt.Sprintf("v=%d\nsave(\"lib\")", k2), fmt.Sprintf("S:%s:%s:1", hxs("lib"), hxs(fmt.Sprint(k2)))},
+			{"image-save", "image.new(\"c17\",2,2)\nimage.save(\"c17\")", "I:1:" + hxs("png") + ":1"},
+			{"load-noarg", `load()`, "L:~"},
+		}
+	}
+	type variant struct {
+		cfg   string
+		flags []string
+	}
+	variants := []variant{{"1100", []string{"-restrict-io"}}, {"1110", []string{"-restrict-io", "-empty-only"}}, {"0000", []string{"-restrict-io", "-no-load-save"}}}
+	runOne := func(v variant, mode, form string, l loc, p scrProg) {
+		caseStr := fmt.Sprintf("SCR %s %s %s %s %s", v.cfg, mode, form, l.key, p.id)
+		if only != "" && only != caseStr {
+			return
+		}
+		src := p.src + "\n"
+		if mode == "shebang" {
+			src = "#!/usr/bin/env grol\n" + src
+		}
+		if err := t.addTemp(l.rel, src); err != nil {
+			c.Fail("harness-scratch-tree", caseStr, err.Error())
+			return
+		}
+		defer t.removeTemp(l.rel)
+		arg := t.nameFromWork(l.rel)
+		if form == "abs" {
+			arg = filepath.Join(t.root, l.rel)
+		}
+		args := append([]string{"-quiet", "-no-auto"}, v.flags...)
+		if mode == "shebang" {
+			args = append(args, "-s")
+		}
+		args = append(args, arg)
+		logPath := filepath.Join(c.Out, "strace-scr.log")
+		var cmd *exec.Cmd
+		if strace != "" {
+			cmd = exec.Command(strace, append([]string{"-f", "-qq", "-xx", "-s", "16384", "--seccomp-bpf", "-e", "signal=none", "-e", "trace=" + traceCalls, "-o", logPath, bin}, args...)...)
+		} else {
+			cmd = exec.Command(bin, args...)
+		}
+		cmd.Dir = t.work
+		cmd.Env = append(os.Environ(), "GOMEMLIMIT=1GiB")
+		outb, _ := cmd.CombinedOutput() // a failing load makes the exit status non-zero: not an error of the run
+		out := string(outb)
+		c.Eval()
+		c.Count("scr-" + v.cfg)
+		detail := func(s string) string {
+			return fmt.Sprintf("%s; cwd=work, script %s = %q, command: grol %s", s, arg, p.src, strings.Join(args, " "))
+		}
+		emptyOnly := v.cfg[2] == '1'
+		// (1) what the process printed: the value of a decoy library next to the script means it was read
+		if m := decoyValue.FindString(out); m != "" {
+			c.Fail("script-mode-restricted-load-read-file-outside-cwd", caseStr, detail("output contains the decoy value "+m+": "+strings.TrimSpace(out)))
+		}
+		// (2) the tree
+		changes, err := t.diffAndRestore()
+		if err != nil {
+			c.Fail("harness-scratch-tree", caseStr, err.Error())
+			return
+		}
+		for _, ch := range changes {
+			if filepath.Dir(ch.rel) != "work" || !allowedName(emptyOnly, filepath.Base(ch.rel)) || ch.kind == "deleted" || ch.kind == "newdir" || ch.kind == "deldir" {
+				c.Fail("script-mode-restricted-io-touched-file-outside-allowed-set", caseStr, detail(ch.kind+" "+ch.rel))
+			}
+		}
+		if v.cfg == "1100" {
+			if p.id == "save-out" && len(changes) == 0 {
+				c.Fail("harness-script-run-had-no-effect", caseStr, detail("save(\"out\") created nothing: "+strings.TrimSpace(out)))
+			}
+			if p.id == "load-g" && !strings.Contains(out, "202") {
+				c.Fail("harness-script-run-had-no-effect", caseStr, detail("load(\"g\") did not print the value of ./g.gr: "+strings.TrimSpace(out)))
+			}
+		}
+		if len(changes) > 0 || l.key != "cwd" {
+			c.NonTrivial("scr:" + caseStr)
+		}
+		// (3) the system calls
+		if strace == "" {
+			c.Count("trace-unavailable")
+			return
+		}
+		events, _, err := parseTraceMode(logPath, t.root, t.work, false)
+		os.Remove(logPath)
+		if err != nil {
+			c.Count("trace-unavailable")
+			return
+		}
+		var es []string
+		scriptOpens := 0
+		for _, e := range events[1] {
+			if e.kind == "P" && e.path == bin {
+				continue // strace starting the interpreter
+			}
+			if e.kind == "O" && e.path == arg && scriptOpens == 0 {
+				scriptOpens++ // main.go opening the script named on the command line (not chosen by the program)
+				continue
+			}
+			c.Eval()
+			name := e.path
+			if filepath.IsAbs(name) {
+				if r, err := filepath.Rel(t.work, name); err == nil {
+					name = r
+				}
+			}
+			if !(e.kind == "C" || e.kind == "O") || strings.ContainsRune(name, '/') || !allowedName(emptyOnly, name) {
+				sig := "script-mode-restricted-io-syscall-outside-allowed-set"
+				if e.kind == "P" {
+					sig = "script-mode-restricted-io-spawned-process"
+				}
+				c.Fail(sig, caseStr, detail(fmt.Sprintf("%s %q", e.kind, e.path)))
+			}
+			es = append(es, e.kind+":"+hxs(name))
+		}
+		if scriptOpens == 0 {
+			c.Count("trace-incomplete")
+			return
+		}
+		if p.req != "" {
+			obs := "-"
+			if len(es) > 0 {
+				obs = strings.Join(es, ",")
+			}
+			c.Case("FSL "+v.cfg+" @ "+p.req, obs)
+		}
+	}
+	for _, v := range variants {
+		for _, l := range locs {
+			for _, p := range progs() {
+				for _, mode := range []string{"plain", "shebang"} {
+					for _, form := range []string{"rel", "abs"} {
+						if !c.Thorough() && only == "" {
+							switch {
+							case v.cfg == "1100" && mode == "shebang" && form == "abs":
+								continue
+							case v.cfg == "1110" && (mode != "plain" || form != "rel" || !(p.id == "load-lib" || p.id == "load-g" || p.id == "load-noarg")):
+								continue
+							case v.cfg == "0000" && (mode != "plain" || form != "rel" || l.key != "parent" || !(p.id == "load-lib" || p.id == "save-out")):
+								continue
+							}
+						}
+						runOne(v, mode, form, l, p)
+					}
+				}
+			}
+		}
+	}
+	// load() without argument when ./.gr is missing and a .gr sits next to the script
+	dotgr := t.base["work/.gr"]
+	t.removeTemp("work/.gr")
+	extra := []string{".gr", "sibling/.gr", "work/sub/.gr"}
+	for i, rel := range extra {
+		_ = t.addTemp(rel, fmt.Sprintf("v=%d\n", 304+i))
+	}
+	for _, v := range variants[:2] {
+		for _, l := range locs[:3] {
+			for _, mode := range []string{"plain", "shebang"} {
+				if mode == "shebang" && !c.Thorough() && only == "" {
+					continue
+				}
+				runOne(v, mode, "rel", l, scrProg{"load-noarg-missing", `load()`, "L:~"})
+			}
+		}
+	}
+	for _, rel := range extra {
+		t.removeTemp(rel)
+	}
+	_ = t.addTemp("work/.gr", dotgr)
+}
+
+// the per-function table of the regenerated inventory next to the audited one (the proof obligation compares them as
+// multisets without the function): reported in the evidence, never a failure
+func reportIOSites(c *Ctx) {
+	tuple := regexp.MustCompile(`\("([^"]*)", "([^"]*)", "([^"]*)", "((?:[^"]|"")*)"\)`)
+	read := func(path, def string) ([]string, bool) {
+		b, err := os.ReadFile(path)
+		if err != nil {
+			return nil, false
+		}
+		s := string(b)
+		i := strings.Index(s, "Definition "+def+" ")
+		if i < 0 {
+			return nil, false
+		}
+		s = s[i:]
+		if j := strings.Index(s, "]."); j >= 0 {
+			s = s[:j]
+		}
+		var out []string
+		for _, m := range tuple.FindAllStringSubmatch(s, -1) {
+			out = append(out, m[1]+" | "+m[2]+" | "+m[3]+" | "+m[4])
+		}
+		return out, true
+	}
+	gen, ok1 := read("coq/gen/Gen_IOSites.v", "io_sites")
+	aud, ok2 := read("coq/proofs/IOSites_audit.v", "audited_io_sites")
+	if !ok1 || !ok2 {
+		return
+	}
+	count := map[string]int{}
+	for _, g := range gen {
+		count[g]++
+	}
+	for _, a := range aud {
+		count[a]--
+	}
+	moved := []string{}
+	for k, n := range count {
+		if n > 0 {
+			moved = append(moved, "now: "+k)
+		} else if n < 0 {
+			moved = append(moved, "audited: "+k)
+		}
+	}
+	sort.Strings(moved)
+	c.Extra["io_sites_per_function"] = gen
+	c.Extra["io_sites_moved"] = moved
 }
 
 // ---------------------------------------------------------------- driver
@@ -1411,6 +1725,9 @@ func runC17(c *Ctx) {
 	for _, cfg := range []string{"1100", "1110", "0000"} {
 		traceStage(c, t, cfg, baseStr, kOf, nextK)
 	}
+	// ---- SCR: the real binary on script files located outside the working directory
+	scriptStage(c, t, nextK, "")
+	reportIOSites(c)
 	if rest, _ := t.diffAndRestore(); len(rest) > 0 {
 		c.Fail("harness-scratch-tree", "final", fmt.Sprint(rest))
 	}
@@ -1475,6 +1792,19 @@ func c17Replay(c *Ctx, cs string) {
 		if err := fr.do(reqs, false); err != nil {
 			fmt.Println(err)
 		}
+		return
+	}
+	if len(f) >= 6 && f[0] == "SCR" {
+		t, err := newTree()
+		if t != nil {
+			defer t.remove()
+		}
+		if err != nil {
+			fmt.Println("scratch tree:", err)
+			return
+		}
+		k := 5000
+		scriptStage(c, t, func() int { k++; return k }, strings.Join(f[:6], " "))
 		return
 	}
 	if len(f) >= 2 && f[0] == "REG" {
